@@ -9,7 +9,7 @@ LEVEL = "proof"
 
 TRUSTED = [
     "Coq 8.16.1 kernel; vm_compute only in the two witness theorems; no axioms (Print Assumptions: closed)",
-    "hand-written Gallina model (Toml/Decode.v) of encoding/toml/decode.go: nextRootNode, decodeField, decodeExpr, decodeKey, findArray, findArrayPrefix (incl. the aliasing of the returned pointer with slices.DeleteFunc), inlineFields; pointers into the syntax tree are child-index paths; rooted keys are segment lists (quoteLabelIfNeeded assumed injective)",
+    "hand-written Gallina model (Toml/Decode.v) of encoding/toml/decode.go: nextRootNode, decodeField, decodeExpr, decodeKey, findArray, findArrayPrefix (the matched array is looked up again after slices.DeleteFunc), inlineFields; pointers into the syntax tree are child-index paths; rooted keys are segment lists (quoteLabelIfNeeded assumed injective)",
     "third party, abstracted: github.com/pelletier/go-toml/v2/unstable parser = the sequence of KeyValue/Table/ArrayTable events of the generated TOML text (known by construction, the harness renders the text from the events); TOML leaves are opaque (compared through the implementation's decoding of the leaf alone); CUE evaluation of the decoded syntax tree = unification of equal labels (eval)",
     "extraction (ExtrOcamlBasic, no Extract Constant), ocaml/c12_driver.ml, harness/c12 (event and data generators, TOML rendering, canon projections)",
     "CLI loop: direct exploration of the property with the cue binary built from the working tree (no model, no theorem): go build ./cmd/cue, exit codes, JSON parsed with encoding/json (UseNumber)",
@@ -23,6 +23,28 @@ def kv(line):
             k, v = w.split("=", 1)
             d[k] = v
     return d
+
+
+def _numbers(data):
+    import re
+    return re.findall(r"([if]):([-+0-9.eE]+)", data)
+
+
+def toml_unrepresentable(data):
+    """some integer outside int64 or some float outside the float64 range"""
+    for k, t in _numbers(data):
+        if k == "i" and not (-2 ** 63 <= int(t) <= 2 ** 63 - 1):
+            return True
+        if k == "f":
+            from decimal import Decimal
+            d = Decimal(t)
+            if d != 0 and (abs(d) > Decimal("1.7976931348623157e308") or abs(d) < Decimal("4.9406564584124654e-324")):
+                return True
+    return False
+
+
+def toml_inexact(data):
+    return any(k == "f" and len(t.replace(".", "").replace("-", "").split("e")[0].strip("0")) > 17 for k, t in _numbers(data))
 
 
 def build_cue(ctx):
@@ -73,7 +95,7 @@ def run(ctx):
     kinds = {"E": 0, "C": 0}
     outcomes = {}
     stats = {"decoder_agrees_with_model": 0, "cli_roundtrip_ok": 0, "cli_export_fails_as_expected": 0,
-             "cli_known_toml_number": 0, "cli_invocations": 0, "cli_inconclusive_timeout": 0}
+             "cli_toml_float_rounded": 0, "cli_toml_rejects_unrepresentable": 0, "cli_invocations": 0, "cli_inconclusive_timeout": 0}
     known = {}
     distinct = set()
     nontrivial = 0
@@ -108,11 +130,6 @@ def run(ctx):
                           "(data / error class / panic) than the model of decode.go (Toml/Decode.v)")
                 continue
             stats["decoder_agrees_with_model"] += 1
-            if i == "panic":
-                parts = c.split(" | ")
-                note("C12-toml-decoder-panic: toml.Decoder panics (nil pointer dereference / slice bounds): findArrayPrefix returns a pointer into "
-                     "openTableArrays and then deletes from that slice (theorem C12_decoder_panics_refuted)",
-                     {"toml": bytes.fromhex(parts[2]).decode("utf-8", "replace")[:200] if len(parts) > 2 and parts[2] != "-" else ""})
             if len(samples) < 3 and kinds["E"] % 1999 == 7:
                 samples.append({"case": c[:300], "impl": i[:200], "model": m[:200]})
         elif k == "C":
@@ -135,15 +152,18 @@ def run(ctx):
             ok = iw["export"] == "rc0" and iw.get("dsame") == "1" and (cw["fmt"] == "cue" or iw.get("same") == "1")
             if ok:
                 stats["cli_roundtrip_ok"] += 1
-            elif wide and cw["fmt"] == "toml":
-                stats["cli_known_toml_number"] += 1
+            elif wide and cw["fmt"] == "toml" and toml_unrepresentable(cw["data"]):
+                # TOML has 64-bit integers and floats: an error is what the property asks for
                 if iw["export"] != "rc0":
-                    # an error instead of a silent change: what the property asks for
-                    pass
+                    stats["cli_toml_rejects_unrepresentable"] += 1
                 else:
-                    note("C12-toml-export-bigint: cue export --out toml silently changes numbers TOML cannot hold: integers outside int64 "
-                         "(and -9223372036854775808 itself) are written as quoted strings, floats are rounded to float64",
-                         {"cue": "x: -9223372036854775808", "toml": "x = '-9223372036854775808'"})
+                    violation("toml-export-changes-number", c, i, m,
+                              "cue export --out toml exits 0 for a number outside the range of TOML's 64-bit integers / floats "
+                              "(C12-toml-export-bigint, fixed): the number is changed silently")
+            elif wide and cw["fmt"] == "toml" and iw["export"] == "rc0" and toml_inexact(cw["data"]):
+                # TOML floats are binary64: a decimal with more than 17 significant digits is written as the
+                # nearest one; not counted as a violation (the value is as close as the format allows)
+                stats["cli_toml_float_rounded"] += 1
             else:
                 violation("cli-round-trip-fails", c, i, m,
                           "export to %s (%s%s) and reading it back (cue export FILE --out json, and cue import + cue export) "
@@ -189,7 +209,7 @@ def run(ctx):
 
 MANIFEST = {
     "category": "proof",
-    "text": "Coq theorems about the TOML decoder state machine of encoding/toml/decode.go (model over parser events): duplicate tables and keys are rejected in every state, repeated [[p]] headers append to one list and following key-values land in the last element, dotted keys / table headers / inline tables spelling the same path decode to the same syntax tree, decodeExpr only depends on seen keys below its own key; witnesses that the decoder can panic and can misplace a table. The model is tied to /repo by exact agreement (data, error class, panic) with toml.NewDecoder on TOML texts generated from known event sequences. The CLI loop export -> import -> export for json/yaml/toml/cue with several flag sets is explored directly with the cue binary built from the working tree.",
+    "text": "Coq theorems about the TOML decoder state machine of encoding/toml/decode.go (model over parser events): duplicate tables and keys are rejected in every state, repeated [[p]] headers append to one list and following key-values land in the last element, dotted keys / table headers / inline tables spelling the same path decode to the same syntax tree, decodeExpr only depends on seen keys below its own key, findArrayPrefix only hands out the array at or above the key (the former panic / misplacement witnesses are regression cases). The model is tied to /repo by exact agreement (data, error class, panic) with toml.NewDecoder on TOML texts generated from known event sequences. The CLI loop export -> import -> export for json/yaml/toml/cue with several flag sets is explored directly with the cue binary built from the working tree.",
     "note": "partial: no theorem about the CLI, file type inference, the go-toml encoder or the YAML/JSON legs (direct exploration only); decode(emit d) = d is not proved for nested tables; TOML leaves are opaque in the model.",
     "technique": "Coq proof (state machine invariants, induction over values) + extracted-model differential check + direct CLI round-trip exploration",
 }
